@@ -26,7 +26,7 @@ MIN_DISTINCT = 100
 
 def plan(tier, seed):
     n = 16 if tier == "quick" else 48
-    total = 800 if tier == "quick" else 12000
+    total = 800 if tier == "quick" else 40000
     return [{"part": i, "parts": n, "seed": seed, "tier": tier, "count": total // n, "k": 8 if tier == "quick" else 40,
              "chains": 6 if tier == "quick" else 40} for i in range(n)]
 
